@@ -218,6 +218,7 @@ class Module:
         return f'<module {self.name}>'
 
 
+same_object = z3.Function('same_object', Val, Val, z3.BoolSort())     # identity of two equal non-singleton values: unconstrained
 NOKW = z3.Const('NOKW', Val)                    # the empty **kwargs pack
 eargs = z3.Function('eargs', Val, Val)          # args tuple of an exception value
 ecause = z3.Function('ecause', Val, Val)        # __cause__
@@ -647,11 +648,29 @@ class Exec:
             return z3.ToReal(a) == b if a.sort() == z3.IntSort() else a == z3.ToReal(b)
         return box(self, a) == box(self, b)
 
+    def identical(self, st, a, b):
+        """`a is b`: equality for the singletons (None, True, False) and for objects with identity (refs);
+        for other values identity implies equality but not conversely (an equal copy is a different object)."""
+        e = self.eq(st, a, b)
+        try:
+            ba, bb = box(self, a), box(self, b)
+        except Unsupported:
+            return e
+        for x in (ba, bb):
+            sx = z3.simplify(x)
+            if sx.eq(NONE) or z3.is_app_of(sx, z3.Z3_OP_DT_CONSTRUCTOR) and sx.decl().name() in ('none', 'boolv', 'ref'):
+                return e
+        return z3.And(e, z3.Or(V.is_none(ba), V.is_boolv(ba), V.is_ref(ba), V.is_ref(bb), same_object(ba, bb)))
+
     def compare(self, st, op, a, b, node):
-        if isinstance(op, (ast.Is, ast.Eq)):
+        if isinstance(op, ast.Eq):
             return self.eq(st, a, b)
-        if isinstance(op, (ast.IsNot, ast.NotEq)):
+        if isinstance(op, ast.NotEq):
             return z3.Not(self.eq(st, a, b))
+        if isinstance(op, ast.Is):
+            return self.identical(st, a, b)
+        if isinstance(op, ast.IsNot):
+            return z3.Not(self.identical(st, a, b))
         if isinstance(op, (ast.In, ast.NotIn)):
             r = self.contains(st, b, a, node)
             return r if isinstance(op, ast.In) else z3.Not(r)
